@@ -31,6 +31,24 @@ CHECKS = {
             'v4 type units) of generated .debug_info/.debug_types/.debug_abbrev sections with mixed units, in all version x format x address-size x byte-order cells.',
             'Trusted: the encoder vf/enc/dwarf.py (written from DWARF v5 chapter 7), vendored LLVM Dwarf.def for tag/attribute names, Hypothesis.',
             'DESIGN.md 4/C04'),
+    'C05': ('Hypothesis-generated line-program models + opcode x cell x header-parameter sweep, independent encoder, reference state machine transcribed from DWARF v5 6.2.5',
+            'Exploration: header tables (v2-4 and v5 entry formats) and every emitted row (all 12 registers) of generated programs over all standard, extended '
+            '(incl. unknown, length-skipped) and special opcodes with arbitrary opcode_base/line_base/line_range/min_inst/max_ops, several sequences and programs per '
+            'section, each reached through a generated CU; decode extent compared with the declared extent.',
+            'Trusted: vf/enc/lineprog.py, vf/ref/lineprog.py (my transcription of 6.2.5), vf/enc/dwarf.py for the CUs, Hypothesis.',
+            'DESIGN.md 4/C05'),
+    'C12': ('Hypothesis-generated operation sequences + every-operation x every-cell sweep from an independently transcribed operation table; round-trip and re-encoding; exhaustive name/opcode bijection',
+            'Exploration: parse_expr output (opcode, name, operand values with signedness/width, offsets, nested entry_value blocks to depth 4) equals the generated '
+            'sequence for all 174 listed operations in 32 configuration cells with boundary operands and non-minimal LEB128; re-encoding reproduces the bytes; the '
+            'name<->opcode maps are checked exhaustively over 0..255.',
+            'Trusted: the operation table and encoder in vf/enc/c12_expr.py (transcribed from DWARF v5 table 7.9 + GNU/WASM documents, refereed in development against readelf and llvm-dwarfdump).',
+            'DESIGN.md 4/C12'),
+    'C15': ('Hypothesis-generated version-section models (forward displacement layouts) embedded in ELF files by an independent writer; round-trip against the model',
+            'Exploration: verdef/verneed entries and auxiliary chains walked through arbitrary non-contiguous forward vd_next/vd_aux/vda_next/vn_next/vn_aux/vna_next '
+            'displacements, names through the linked string table, get_version hits/misses/duplicates/hidden bit, has_indexes memoisation, versym entries paired with '
+            'dynsym names; all class/order cells.',
+            'Trusted: the record encoders in vf/checks/c15.py (refereed against readelf -V on the sweep files), vf/enc/elf.py.',
+            'DESIGN.md 4/C15'),
     'C16': ('exhaustive enumeration of short encodings + Hypothesis random encodings against an independent arithmetic decoder',
             'Exploration: every LEB128 prefix up to 2 (quick) / 3 (thorough) bytes and (thorough) all 2^24 24-bit values are enumerated '
             'completely; longer encodings, fixed-width integers, strings, blocks and initial lengths are covered by boundary sweeps and '
